@@ -34,6 +34,10 @@ def compile_design(desc, need_ref=True):
             comp.built = build(desc)
     except (ValueError, RuntimeError) as e:
         raise Rejected(f'{type(e).__name__}: {e}')
+    except Exception as e:
+        # the constructor did not accept the design (it failed with an undocumented exception type): not a verdict
+        # for properties about accepted designs
+        raise Rejected(f'constructor-internal {type(e).__name__}: {e}')
     comp.block = comp.built.block
     with quiet():
         comp.clauses = compiled_clauses(comp.block)
